@@ -42,3 +42,9 @@ fn k_abs_float() {
     assert!(ok, "C29.abs.float: abs(f) is |f| (non-negative, same magnitude) for every non-NaN float");
     core::mem::forget(r);
 }
+
+#[cfg(test)]
+mod playback {
+    use super::*;
+    include!("/verif/.cache/playback/std_abs.rs");
+}
